@@ -59,6 +59,7 @@ type raceWorld struct {
 	pagesMu sync.Mutex
 	pages   map[string][]byte // last response body per browser
 	leaks   []string          // view data of one request seen in the page of another
+	api     bool              // JSON bodies and JSON redirects (defaults.SetCore(.., true, ..))
 }
 
 // mailSink is where the shipped mailers deliver: an io.Writer for the LogMailer and a minimal SMTP
@@ -188,16 +189,16 @@ func (w *raceWorld) crosstalk() []string {
 	return bad
 }
 
-func newRaceWorld(noRoot bool) (*raceWorld, error) {
+func newRaceWorld(noRoot, api bool) (*raceWorld, error) {
 	be := &Backend{}
-	w := &raceWorld{st: newStore(be, false), sess: &jarRW{jars: map[string]jar{}}, cook: &jarRW{jars: map[string]jar{}}, mail: &mailOut{}}
+	w := &raceWorld{api: api, st: newStore(be, false), sess: &jarRW{jars: map[string]jar{}}, cook: &jarRW{jars: map[string]jar{}}, mail: &mailOut{}}
 	ab := authboss.New()
 	ab.Config.Storage.Server = w.st
 	ab.Config.Storage.SessionState = w.sess
 	ab.Config.Storage.CookieState = w.cook
 	ab.Config.Core.ViewRenderer = renderer{be: be}
 	ab.Config.Core.MailRenderer = renderer{be: be}
-	defaults.SetCore(&ab.Config, false, false) // default router, error handler, responder, redirector, body reader
+	defaults.SetCore(&ab.Config, api, false) // default router, error handler, responder, redirector, body reader
 	ab.Config.Core.Logger = defaults.NewLogger(io.Discard)
 	ab.Config.Core.ErrorHandler = defaults.NewErrorHandler(ab.Config.Core.Logger)
 	w.sink = &mailSink{}
@@ -294,7 +295,18 @@ func viewLeak(b string, body []byte) string {
 func (w *raceWorld) do(b, method, path string, form url.Values) (int, string, string) {
 	var body io.Reader
 	if method != "GET" {
-		body = strings.NewReader(form.Encode())
+		if w.api {
+			m := map[string]string{}
+			for k, v := range form {
+				if len(v) > 0 {
+					m[k] = v[0]
+				}
+			}
+			jb, _ := json.Marshal(m)
+			body = strings.NewReader(string(jb))
+		} else {
+			body = strings.NewReader(form.Encode())
+		}
 	} else if form != nil {
 		path += "?" + form.Encode()
 	}
@@ -303,6 +315,9 @@ func (w *raceWorld) do(b, method, path string, form url.Values) (int, string, st
 	r := httptest.NewRequest(method, "http://"+b+".site.test"+path, body)
 	if method != "GET" {
 		r.Header.Set("Content-Type", "application/x-www-form-urlencoded")
+	}
+	if w.api {
+		r.Header.Set("Content-Type", "application/json")
 	}
 	r.Header.Set("X-Browser", b)
 	rec := httptest.NewRecorder()
@@ -325,7 +340,16 @@ func (w *raceWorld) do(b, method, path string, form url.Values) (int, string, st
 	} else if strings.HasPrefix(rec.Body.String(), "app:") {
 		page = rec.Body.String()
 	}
-	return rec.Code, rec.Result().Header.Get("Location"), page
+	loc := rec.Result().Header.Get("Location")
+	if w.api { // API mode: a redirect is a JSON document naming the location
+		var j struct {
+			Location string `json:"location"`
+		}
+		if json.Unmarshal(rec.Body.Bytes(), &j) == nil && j.Location != "" {
+			loc = j.Location
+		}
+	}
+	return rec.Code, loc, page
 }
 
 // lastCodes returns the first recovery code the last page shown to browser b carried
@@ -380,7 +404,7 @@ func clientScript(w *raceWorld, i int, heavy bool) []string {
 	note("confirm", c, l, p)
 	c, l, p = w.do(b, "POST", "/auth/login", url.Values{"email": {email}, "password": {"Wrong-pass1!"}})
 	note("login-wrong", c, l, p)
-	c, l, p = w.do(b, "POST", "/auth/login", url.Values{"email": {email}, "password": {pw}, "rm": {"true"}})
+	c, l, p = w.do(b, "POST", fmt.Sprintf("/auth/login?redir=/home/c%d", i), url.Values{"email": {email}, "password": {pw}, "rm": {"true"}})
 	note("login", c, l, p)
 	c, l, p = w.do(b, "GET", "/app", nil)
 	note("app", c, l, p)
@@ -398,7 +422,7 @@ func clientScript(w *raceWorld, i int, heavy bool) []string {
 	note("recover-end", c, l, p)
 	c, l, p = w.do(b, "POST", "/auth/login", url.Values{"email": {email}, "password": {pw}})
 	note("login-old", c, l, p)
-	c, l, p = w.do(b, "POST", "/auth/login", url.Values{"email": {email}, "password": {np}})
+	c, l, p = w.do(b, "POST", "/auth/login", url.Values{"email": {email}, "password": {np}}) // no return target: the default
 	note("login-new", c, l, p)
 	tr = append(tr, oauthPart(w, i, b+"o")...)
 	if !heavy { // recovery codes are bcrypted at the default cost (seconds under the race detector): one client of every twelfth run does the 2FA and OAuth2 part
@@ -483,13 +507,13 @@ func init() {
 				// solo transcripts: each client alone in a fresh world
 				solo := make([][]string, *clients)
 				for i := 0; i < *clients; i++ {
-					w, err := newRaceWorld(run%2 == 1)
+					w, err := newRaceWorld(run%2 == 1, run%4 >= 2)
 					if err != nil {
 						return err
 					}
 					solo[i] = clientScript(w, i, i == 0 && run%12 == 0)
 				}
-				w, err := newRaceWorld(run%2 == 1)
+				w, err := newRaceWorld(run%2 == 1, run%4 >= 2)
 				if err != nil {
 					return err
 				}
@@ -516,8 +540,8 @@ func init() {
 				}
 				for i := 0; i < *clients; i++ {
 					res.Steps += len(conc[i])
-					a := strings.ReplaceAll(strings.Join(solo[i], "\n"), fmt.Sprintf("c%d@", i), "c@")
-					b := strings.ReplaceAll(strings.Join(conc[i], "\n"), fmt.Sprintf("c%d@", i), "c@")
+					a := strings.ReplaceAll(strings.ReplaceAll(strings.Join(solo[i], "\n"), fmt.Sprintf("c%d@", i), "c@"), fmt.Sprintf("/home/c%d", i), "/home/self")
+					b := strings.ReplaceAll(strings.ReplaceAll(strings.Join(conc[i], "\n"), fmt.Sprintf("c%d@", i), "c@"), fmt.Sprintf("/home/c%d", i), "/home/self")
 					if a != b {
 						res.Mismatches = append(res.Mismatches, fmt.Sprintf("client %d:\nsolo:\n%s\nconcurrent:\n%s", i, a, b))
 					}
